@@ -54,6 +54,8 @@ def op_strategies(set_funcs=SET_FUNCS, list_funcs=LIST_FUNCS, symbols=False, loa
         if f in ("discard", "remove", "isub"):
             fields["xk"] = st.sampled_from([0, 0, 0, 1, 2])
         if f == "update":
+            fields["as"] = st.one_of(how, how, how, st.just("view"), st.just("boom"))
+            fields["bk"] = st.integers(0, 3)
             fields["cs2"] = cs
             fields["two"] = st.booleans()
             fields["zero"] = st.sampled_from([False, False, False, False, True])
@@ -63,9 +65,13 @@ def op_strategies(set_funcs=SET_FUNCS, list_funcs=LIST_FUNCS, symbols=False, loa
         if f in ("delslice", "setslice"):
             fields.update(a=sl, b=sl, s=st.one_of(st.none(), st.none(), st.sampled_from([1, 2, -1, -2, 3])))
         if f in ("extend", "iadd"):
-            fields["as"] = st.one_of(how, how, how, st.just("view"))
+            fields["as"] = st.one_of(how, how, how, st.just("view"), st.just("boom"))
+            fields["bk"] = st.integers(0, 3)
         if f == "setslice":
             fields["perm"] = st.one_of(st.none(), st.integers(0, 8))
+            fields["mis"] = st.sampled_from([0, 0, 0, 1, 2])
+            fields["as"] = st.one_of(how, how, how, how, st.just("boom"))
+            fields["bk"] = st.integers(0, 3)
         if f == "remove":
             fields["xk"] = st.sampled_from([0, 0, 0, 1, 2, 3])
         if f == "pop":
